@@ -3,7 +3,7 @@
    `classify` (JSON parse + schema validation of one payload) and the seq offset are universally
    quantified; FIXED = the code after the two `fix:` commits for S11 (what /repo contains now),
    UNFIXED = the code before them. *)
-From RipV Require Import Base.Prelude Base.Utf8 Model.Sse Proofs.Utf8Proofs Proofs.SseProofs.
+From RipV Require Import Base.Prelude Base.Utf8 Base.Json Model.Sse Proofs.Utf8Proofs Proofs.SseProofs.
 
 (* the frames depend on the body only: any two partitions into chunks (every split position, inside
    a multi-byte character, between CR and LF, inside a field name, one byte at a time, empty
@@ -57,7 +57,7 @@ Print Assumptions c15_seq_contiguous.
 
 (* ... also when the stream breaks with a transport error, and *seq ends right after the last frame *)
 Theorem c15_seq_contiguous_transport_error :
-  forall (classify : option str -> str -> cls) (off : N) (cs : list (list N)) (h : N),
+  forall (classify : option str -> str -> cls) (off : N) (cs : list (list N)) (h : str),
   let fs := fst (run_pipe classify FIXED off cs (Some h)) in
   map fseq fs = iotaN off (length fs) /\ snd (run_pipe classify FIXED off cs (Some h)) = off + nlen fs.
 Proof. exact seq_contiguous_transport_error. Qed.
